@@ -200,26 +200,58 @@ func (c *Child) Kill() {
 // panics) show the line numbers of the real file.
 
 func GenDelayOverlayLines(serviceDir, out string) (string, []DelaySite, error) {
-	src := filepath.Join(serviceDir, "connection.go")
+	if err := os.MkdirAll(out, 0o755); err != nil {
+		return "", nil, err
+	}
+	var sites []DelaySite
+	replace := map[string]string{}
+	// connection.go: the connection's goroutines; session_manager.go: the sends into operationFuncChan, the manager
+	// closures' sends (ch, activeMsgChan, replyChan) - the manager-side half of every join / leave / send race
+	for _, name := range []string{"connection.go", "session_manager.go"} {
+		src := filepath.Join(serviceDir, name)
+		outText, err := delayLinesOneFile(src, &sites)
+		if err != nil {
+			return "", nil, err
+		}
+		re := filepath.Join(out, name)
+		if err := os.WriteFile(re, outText, 0o644); err != nil {
+			return "", nil, err
+		}
+		replace[src] = re
+	}
+	dl := filepath.Join(out, "verif_delay.go")
+	if err := os.WriteFile(dl, []byte(delaySrc), 0o644); err != nil {
+		return "", nil, err
+	}
+	replace[filepath.Join(serviceDir, "verif_delay.go")] = dl
+	b, _ := json.MarshalIndent(map[string]map[string]string{"Replace": replace}, "", " ")
+	oj := filepath.Join(out, "overlay.json")
+	if err := os.WriteFile(oj, b, 0o644); err != nil {
+		return "", nil, err
+	}
+	return oj, sites, nil
+}
+
+// delayLinesOneFile returns the instrumented text of one file; site numbers continue in *psites.
+func delayLinesOneFile(src string, psites *[]DelaySite) ([]byte, error) {
 	text, err := os.ReadFile(src)
 	if err != nil {
-		return "", nil, err
+		return nil, err
 	}
 	fset := token.NewFileSet()
 	f, err := parser.ParseFile(fset, src, text, parser.ParseComments)
 	if err != nil {
-		return "", nil, err
+		return nil, err
 	}
 	type ins struct {
 		off  int
 		code string
 	}
-	var sites []DelaySite
 	var inserts []ins
 	add := func(pos token.Pos, what, fn string, after bool) {
-		id := len(sites)
+		id := len(*psites)
 		p := fset.Position(pos)
-		sites = append(sites, DelaySite{ID: id, Line: p.Line, What: what, Func: fn})
+		*psites = append(*psites, DelaySite{ID: id, Line: p.Line, What: what, Func: filepath.Base(src) + ":" + fn})
 		off := p.Offset
 		code := fmt.Sprintf("verifDelay(%d); ", id)
 		if after { // right after the '{' of a function literal
@@ -335,24 +367,7 @@ func GenDelayOverlayLines(serviceDir, out string) (string, []DelaySite, error) {
 	for _, in := range inserts {
 		outText = append(outText[:in.off], append([]byte(in.code), outText[in.off:]...)...)
 	}
-	if err := os.MkdirAll(out, 0o755); err != nil {
-		return "", nil, err
-	}
-	re := filepath.Join(out, "connection.go")
-	dl := filepath.Join(out, "verif_delay.go")
-	if err := os.WriteFile(re, outText, 0o644); err != nil {
-		return "", nil, err
-	}
-	if err := os.WriteFile(dl, []byte(delaySrc), 0o644); err != nil {
-		return "", nil, err
-	}
-	ov := map[string]map[string]string{"Replace": {src: re, filepath.Join(serviceDir, "verif_delay.go"): dl}}
-	b, _ := json.MarshalIndent(ov, "", " ")
-	oj := filepath.Join(out, "overlay.json")
-	if err := os.WriteFile(oj, b, 0o644); err != nil {
-		return "", nil, err
-	}
-	return oj, sites, nil
+	return outText, nil
 }
 
 // BuildChildLines is BuildChild with the line-preserving overlay.
@@ -385,4 +400,30 @@ func BuildChildLines(cmd, out, name string, race bool) (string, []DelaySite, err
 		return "", sites, fmt.Errorf("go build: %v: %s", err, Trunc(string(outb), 2000))
 	}
 	return bin, sites, nil
+}
+
+// ConcFragFrames: one message body cut into `parts` sub-packaged frames (JT/T 808 table 3: bit 13 of the
+// attribute, total and 1-based index after the serial); serials serial, serial+1, ...
+func ConcFragFrames(id uint16, phone string, serial uint16, body []byte, parts int) [][]byte {
+	var out [][]byte
+	size := (len(body) + parts - 1) / parts
+	for k := 0; k < parts; k++ {
+		lo, hi := k*size, (k+1)*size
+		if hi > len(body) {
+			hi = len(body)
+		}
+		chunk := body[lo:hi]
+		attr := uint16(len(chunk)) | 0x2000
+		b := []byte{byte(id >> 8), byte(id), byte(attr >> 8), byte(attr)}
+		b = append(b, bcdDigits(phone, 6)...)
+		s := serial + uint16(k)
+		b = append(b, byte(s>>8), byte(s), byte(parts>>8), byte(parts), byte((k+1)>>8), byte(k+1))
+		b = append(b, chunk...)
+		var x byte
+		for _, v := range b {
+			x ^= v
+		}
+		out = append(out, esc808(append(b, x)))
+	}
+	return out
 }
